@@ -39,6 +39,17 @@ func descOf(mediaType string, data []byte) ociregistry.Descriptor {
 	return ociregistry.Descriptor{MediaType: mediaType, Digest: sha256Digest(data), Size: int64(len(data))}
 }
 
+// mtAlt is a second blob media type.
+const mtAlt = "application/vnd.example.alt"
+
+// blobMT is the media type a PushBlob operation declares.
+func blobMT(op Op) string {
+	if op.Piece == "alt" {
+		return mtAlt
+	}
+	return mtOctet
+}
+
 func mustJSON(v any) []byte {
 	data, err := json.Marshal(v)
 	if err != nil {
@@ -111,6 +122,9 @@ func (o Op) String() string {
 		if o.Bad != "" {
 			s += ",bad-" + o.Bad
 		}
+		if o.Piece == "alt" {
+			s += ",alt-media-type"
+		}
 		return s + ")"
 	case "PushManifest":
 		return fmt.Sprintf("PushManifest(%s,tag=%q,m%d)", o.Repo, o.Tag, o.M)
@@ -155,6 +169,7 @@ func opsText(h []Op) []string {
 
 // alphabetConfig selects which operation families are enumerated.
 type alphabetConfig struct {
+	AltBlobMT   bool // also push blobs under a second media type (Op.Piece == "alt"); direct stacks only: HTTP does not carry a blob's media type
 	Repos       []string
 	BadRepo     bool // include an invalid repository name
 	Chunked     bool
@@ -183,6 +198,9 @@ func (u *universe) staticOps(c alphabetConfig) []Op {
 	for _, r := range repos {
 		for _, b := range c.Blobs {
 			ops = append(ops, Op{K: "PushBlob", Repo: r, B: b})
+			if c.AltBlobMT && b != 0 {
+				ops = append(ops, Op{K: "PushBlob", Repo: r, B: b, Piece: "alt"})
+			}
 		}
 	}
 	if c.BadPushes {
